@@ -763,6 +763,12 @@ update_load_av ()
   if (current_time == last_time)
     return;
   duration = current_time - last_time;
+  if (duration < 0)
+    {
+      /* the clock was set back: there is no interval to average over, start a new one */
+      last_time = current_time;
+      return;
+    }
   if (duration < NUM_CONSTS)
     c = consts[duration];
   else
@@ -786,6 +792,11 @@ update_compile_av (int lines)
   if (current_time == last_time)
     return;
   duration = current_time - last_time;
+  if (duration < 0)
+    {
+      last_time = current_time;
+      return;
+    }
   if (duration < NUM_CONSTS)
     c = consts[duration];
   else
